@@ -2,15 +2,19 @@
 """token -> lexeme table of the working tree: literal rules of lexer.l and the keyword table of keywords.cpp.
   lexemes.py <lexer.l> <keywords.cpp> <out.json>
 out: {"lit": {token: [texts]}, "kw": {text: {"tok": token, "syntax": mask-name}}}"""
-import json, re, sys
+import json, os, re, sys
 lex, kw, out = sys.argv[1:4]
 lit = {}
-for m in re.finditer(r"""^"((?:[^"\\]|\\.)+)"\s*\{\s*return\s+('(?:[^'\\]|\\.)'|[^;']+);\s*\}""", open(lex).read(), re.M):
-    text = m.group(1).encode().decode("unicode_escape")
-    tok = m.group(2).strip()
-    if tok.startswith("'"):
-        tok = tok          # character tokens keep their quotes, as in the bison report ('(' etc.)
-    lit.setdefault(tok, []).append(text)
+sys.path.insert(0, os.path.dirname(os.path.abspath(__file__)))
+import lexer_rules
+for cond, pat, act in lexer_rules.rule_lines(lex)[2]:
+    # literal rules: the pattern is one quoted string, the action returns one token (or, for the path-quantifier letters, that token unless the text names a type)
+    m = re.fullmatch(r'"((?:[^"\\]|\\.)+)"', pat)
+    if not m or cond != "INITIAL":
+        continue
+    a = lexer_rules.classify(act)
+    if a["k"] in ("tok", "letter"):
+        lit.setdefault(a["tok"], []).append(m.group(1).encode().decode("unicode_escape"))
 kws = {}
 for m in re.finditer(r'\{"(\w+)",\s*Keyword\{(\w+),\s*syntax_t::(\w+)\}\}', open(kw).read()):
     kws[m.group(1)] = {"tok": m.group(2), "syntax": m.group(3)}
